@@ -76,6 +76,23 @@ func verifC01(n, t int, signers []int, fullBytes int) {
 	q := ec.Params().N
 	allKeys := []*big.Int{big.NewInt(1), big.NewInt(2), big.NewInt(3), big.NewInt(4)}[:n]
 	saves, pub, _ := verifKeyData(n, t, allKeys)
+	// C18 / C20: signing with an HD derivation offset delta: the parties sign for the child key
+	// pub + delta*G; the stored secret shares Xi must stay as they were
+	var delta *big.Int
+	xiBefore := make([]*big.Int, len(saves))
+	for i := range saves {
+		xiBefore[i] = new(big.Int).Set(saves[i].Xi)
+	}
+	if verifC01KDD {
+		delta = v.NondetNat("delta")
+		v.Assume("offset-in-Zq*", v.InRange(delta, big.NewInt(1), q))
+		child, err := pub.Add(crypto.ScalarBaseMult(ec, delta))
+		if err != nil {
+			return // child key at infinity: refused by the derivation (C18)
+		}
+		v.Assert("adjusting-the-public-data-succeeds", UpdatePublicKeyAndAdjustBigXj(delta, saves, child.ToECDSAPubKey(), ec) == nil)
+		pub = child
+	}
 	m := v.NondetNat("m")
 	v.Assume("digest-below-order", v.LtInt(m, q))
 	ids := make(tss.UnSortedPartyIDs, len(signers))
@@ -99,7 +116,11 @@ func verifC01(n, t int, signers []int, fullBytes int) {
 		if fullBytes > 0 {
 			parties[i] = NewLocalParty(m, params, key, out, end, fullBytes)
 		} else {
-			parties[i] = NewLocalParty(m, params, key, out, end)
+			if verifC01KDD {
+				parties[i] = NewLocalPartyWithKDD(m, params, key, delta, out, end)
+			} else {
+				parties[i] = NewLocalParty(m, params, key, out, end)
+			}
 		}
 	}
 	for i := range parties {
@@ -166,7 +187,11 @@ func verifC01(n, t int, signers []int, fullBytes int) {
 			return
 		}
 		px := P.X()
-		v.Assert("verifies-with-textbook-ecdsa", v.CongMod(px, r, q))
+		// x(u1*G + u2*Y) mod q == r (r is already reduced: asserted above)
+		v.Assert("verifies-with-textbook-ecdsa", v.EqInt(new(big.Int).Mod(px, q), r))
+	}
+	for i := range saves {
+		v.Assert("stored-secret-share-unchanged", v.EqInt(saves[i].Xi, xiBefore[i]))
 	}
 	v.Reach("end")
 }
@@ -175,6 +200,15 @@ func VerifHarness_C01_ecdsa_sign_n2t1_all()   { verifC01(2, 1, []int{0, 1}, 0) }
 func VerifHarness_C01_ecdsa_sign_n3t1_sub02() { verifC01(3, 1, []int{0, 2}, 0) }
 func VerifHarness_C01_ecdsa_sign_n3t1_all3()  { verifC01(3, 1, []int{0, 1, 2}, 0) }
 func VerifHarness_C01_ecdsa_sign_n2t1_full32() { verifC01(2, 1, []int{1, 0}, 32) }
+
+// C18 (signing part) / C20: a signature produced with the derivation offset delta verifies
+// under the child key pub + delta*G, for every delta in [1,q); the stored Xi are untouched
+var verifC01KDD = false
+
+func VerifHarness_C01_ecdsa_sign_n2t1_with_derivation_offset() {
+	verifC01KDD = true
+	verifC01(2, 1, []int{0, 1}, 0)
+}
 
 // a digest not below the curve order is refused before any message is sent
 func VerifHarness_C01_ecdsa_sign_digest_too_large() {
